@@ -108,6 +108,9 @@ func c08Classify(data []byte) c08Msg {
 	var m struct {
 		ID     json.RawMessage `json:"id"`
 		Method string          `json:"method"`
+		Params struct {
+			RequestID json.RawMessage `json:"requestId"`
+		} `json:"params"`
 	}
 	out := c08Msg{Kind: "other"}
 	if err := json.Unmarshal(data, &m); err != nil {
@@ -124,6 +127,10 @@ func c08Classify(data []byte) c08Msg {
 	}
 	if hasID {
 		out.RID = strings.Trim(string(m.ID), `"`)
+	}
+	if m.Method == "notifications/cancelled" {
+		// made by the SDK when a server->client call is abandoned: identified by the id of that call
+		out.Kind, out.RID = "cancel", strings.Trim(string(m.Params.RequestID), `"`)
 	}
 	if mm := c08TagRe.FindSubmatch(data); mm != nil {
 		out.Tag = string(mm[1])
@@ -267,6 +274,9 @@ func (x *c08Exch) sseEvent(raw []byte) {
 
 func (x *c08Exch) record(e c08Event, raw string) {
 	r := x.run
+	if e.Msg.Kind == "cancel" {
+		r.cancelTag(x.sess, &e.Msg)
+	}
 	if e.Msg.Kind == "resp" && e.Msg.Tag == "" && e.Msg.RID == "1000" {
 		e.Msg.Tag, e.Msg.OS, e.Msg.OR = x.sess+".init.resp", x.sess, "init"
 	}
@@ -357,7 +367,13 @@ func (s *c08Store) Open(ctx context.Context, sid, stream string) error {
 
 func (s *c08Store) Append(ctx context.Context, sid, stream string, data []byte) error {
 	m := c08Classify(data)
-	if m.Tag != "" && m.Kind != "bcast" {
+	if m.Kind == "sreq" && m.Tag != "" {
+		s.run.noteSreqTag(s.run.sessName(sid), m)
+	}
+	if m.Kind == "cancel" {
+		s.run.cancelTag(s.run.sessName(sid), &m)
+	}
+	if m.Tag != "" && m.Kind != "bcast" && m.Kind != "cancel" {
 		s.run.gate("A:" + m.OS + "." + m.OR)
 	}
 	tag := m.Tag
@@ -417,12 +433,14 @@ func (s *c08Store) SessionClosed(ctx context.Context, sid string) error {
 // ---------------------------------------------------------------- run state
 
 type c08Handler struct {
-	cmd     chan string
-	started bool
-	ended   bool
-	busy    bool // inside NotifyProgress / Ping
-	retSent bool
-	abort   context.CancelFunc // gives up a server->client request nobody will answer (clean-up only)
+	cmd       chan string
+	started   bool
+	ended     bool
+	busy      bool // inside NotifyProgress / Ping
+	retSent   bool
+	abort     context.CancelFunc // gives up a server->client request nobody will answer (clean-up only)
+	nq        int
+	abandoned bool
 }
 
 type c08SessState struct {
@@ -455,6 +473,7 @@ type c08Run struct {
 	streams  map[string]string       // "s.r" -> stream id (learned from st.open / event ids)
 	issued   map[string]map[int]bool // "s/stream" -> event indices handed to the client
 	sreqs    map[string][]string     // "s.r" -> JSON-RPC ids of unanswered server->client requests
+	sreqTag  map[string]string       // "s/<id>" -> tag of the server->client request sent under that id
 	gates    map[string]*c08Gate     // armed gates
 	held     atomic.Int32
 	nans     int
@@ -485,6 +504,25 @@ func (r *c08Run) noteSreq(m c08Msg) {
 	defer r.mu.Unlock()
 	k := m.OS + "." + m.OR
 	r.sreqs[k] = append(r.sreqs[k], m.RID)
+	r.sreqTag[m.OS+"/"+m.RID] = m.Tag
+}
+
+// noteSreqTag remembers under which JSON-RPC id a session's server->client request went out.
+func (r *c08Run) noteSreqTag(sess string, m c08Msg) {
+	r.mu.Lock()
+	defer r.mu.Unlock()
+	r.sreqTag[sess+"/"+m.RID] = m.Tag
+}
+
+// cancelTag names a cancellation notice after the call it cancels: "<s>.<r>.q<k>" -> "<s>.<r>.c<k>". The call
+// is looked up by (session in which the notice was seen, requestId).
+func (r *c08Run) cancelTag(sess string, m *c08Msg) {
+	r.mu.Lock()
+	defer r.mu.Unlock()
+	if t := r.sreqTag[sess+"/"+m.RID]; t != "" {
+		p := strings.Split(t, ".")
+		m.Tag, m.OS, m.OR = p[0]+"."+p[1]+".c"+strings.TrimPrefix(p[2], "q"), p[0], p[1]
+	}
 }
 
 // gate blocks the calling SDK goroutine if a gate with this key is armed.
@@ -629,7 +667,7 @@ func (r *c08Run) tool(ctx context.Context, req *mcp.CallToolRequest) (*mcp.CallT
 				r.log.emit("h.emit", "s", a.S, "r", a.R, "tag", tag, "kind", "sreq")
 				pctx, pcancel := context.WithCancel(ctx)
 				r.mu.Lock()
-				h.busy, h.abort = true, pcancel
+				h.busy, h.abort, h.nq, h.abandoned = true, pcancel, q, false
 				r.mu.Unlock()
 				err := req.Session.Ping(pctx, &mcp.PingParams{Meta: mcp.Meta{"tag": tag}})
 				pcancel()
@@ -879,6 +917,24 @@ func (r *c08Run) step(st []any) {
 			break
 		}
 		h.cmd <- op
+	case "abandon":
+		// the handler gives up its pending server->client call (cancels that call's context)
+		k := arg(1) + "." + arg(2)
+		r.mu.Lock()
+		h := r.handlers[k]
+		var abort context.CancelFunc
+		nq := 0
+		if h != nil && h.busy && h.abort != nil && !h.abandoned {
+			abort, h.abandoned, nq = h.abort, true, h.nq
+			r.sreqs[k] = nil // the client no longer owes an answer
+		}
+		r.mu.Unlock()
+		if abort == nil {
+			applied = false
+			break
+		}
+		r.log.emit("h.abandon", "s", arg(1), "r", arg(2), "tag", fmt.Sprintf("%s.c%d", k, nq))
+		abort()
 	case "ans":
 		s := r.sess[arg(1)]
 		k := arg(1) + "." + arg(2)
@@ -1036,7 +1092,7 @@ func (r *c08Run) step(st []any) {
 		applied = false
 	}
 	r.settle()
-	r.log.emit("step", "op", op, "a1", arg(1), "a2", arg(2), "a3", arg(3), "a4", arg(4), "ri", ri, "applied", applied, "snap", r.snapshot())
+	r.log.emit("step", "op", op, "a1", arg(1), "a2", arg(2), "a3", arg(3), "a4", arg(4), "ri", ri, "applied", applied, "held", int(r.held.Load()), "snap", r.snapshot())
 }
 
 func (r *c08Run) openGates() bool {
@@ -1175,7 +1231,7 @@ func c08RunScenario(t *testing.T, l *c08Log, sc *c08Scenario) {
 		synctest.Test(t, func(t *testing.T) {
 			r := &c08Run{t: t, sc: sc, log: l, sess: map[string]*c08SessState{}, bySid: map[string]string{},
 				exch: map[string]*c08Exch{}, handlers: map[string]*c08Handler{}, streams: map[string]string{},
-				issued: map[string]map[int]bool{}, sreqs: map[string][]string{}, gates: map[string]*c08Gate{}}
+				issued: map[string]map[int]bool{}, sreqs: map[string][]string{}, sreqTag: map[string]string{}, gates: map[string]*c08Gate{}}
 			r.run()
 		})
 	})
@@ -1220,7 +1276,11 @@ func c08Random(rnd *rand.Rand, i int) *c08Scenario {
 		case k < 9 && len(live) > 0:
 			h := live[rnd.IntN(len(live))]
 			sc.Steps = append(sc.Steps, []any{"sreq", h.s, h.r})
-			if rnd.IntN(3) > 0 {
+			switch rnd.IntN(4) {
+			case 0:
+			case 1:
+				sc.Steps = append(sc.Steps, []any{"abandon", h.s, h.r})
+			default:
 				sc.Steps = append(sc.Steps, []any{"ans", h.s, h.r})
 			}
 		case k < 11 && len(live) > 0:
